@@ -374,6 +374,12 @@ func extraMenu() []callT {
 			sharedRM2["k"], sharedRM2["j"] = "to=1~3|k-size", "required|need-j"
 			return []interface{}{"http://h/p?k=ab", sharedRM2}
 		}, func(a []interface{}) (string, []string) { return errText(valid.Url(a[0], a[1].(valid.RM))), nil }, nil},
+		// more rule objects than the entry point documents: the caller's objects stay as they are
+		{"Struct(T1, rm1, rm2)", func() []interface{} {
+			return []interface{}{&T1{F: "abcd", G: 2}, valid.RM{"F": "to=1~9|rm1-F"}, valid.RM{"F": "required|rm2-F", "G": "eq=7|rm2-G"}}
+		}, func(a []interface{}) (string, []string) {
+			return errText(valid.Struct(a[0], a[1].(valid.RM), a[2].(valid.RM))), nil
+		}, nil},
 		{"GetJoinValidErrStr+GetJoinFieldErr", func() []interface{} { return []interface{}{"Obj", "Field", "in"} },
 			func(a []interface{}) (string, []string) {
 				e1 := valid.GetJoinValidErrStr(a[0].(string), a[1].(string), a[2].(string), valid.ExplainEn, "one")
